@@ -102,9 +102,16 @@ func (self *StreamDecoder) Decode(val interface{}) (err error) {
 		}
 
 		// advance by what the decoder really consumed: the fast skipper may frame
-		// several whitespace-separated scalars (`1 2 3`) as one span
-		if n := self.Decoder.Pos(); n > 0 && s+n < e {
-			e = s + n
+		// several whitespace-separated scalars (`1 2 3`) as one span. After a failed
+		// decode the decoder's position is not a value boundary (it stops on the spot
+		// when an unmarshaler refuses a member), the end of the value is taken from
+		// the frame instead.
+		if err == nil {
+			if n := self.Decoder.Pos(); n > 0 && s+n < e {
+				e = s + n
+			}
+		} else {
+			e = s + endOfFirst(self.buf[s:e])
 		}
 		self.scanp = e
 		_, empty := self.scan()
@@ -131,6 +138,21 @@ func (self *StreamDecoder) Decode(val interface{}) (err error) {
 	}
 
 	return self.err
+}
+
+// endOfFirst returns the length of the first value of a span framed by the fast skipper:
+// an object, an array or a string is framed exactly, only bare scalars separated by blanks
+// are framed together.
+func endOfFirst(span []byte) int {
+	if len(span) == 0 || span[0] == '{' || span[0] == '[' || span[0] == '"' {
+		return len(span)
+	}
+	for i, c := range span {
+		if utils.IsSpace(c) {
+			return i
+		}
+	}
+	return len(span)
 }
 
 // InputOffset returns the input stream byte offset of the current decoder position.
